@@ -21,7 +21,7 @@ SPEC = dict(
     assumptions=["expected message = template with placeholders replaced textually (own implementation)",
                  "templates contain no braces other than documented placeholders; OLD/NEW occur as separate words",
                  "real git: only messages that git's own whitespace/comment clean-up leaves unchanged are read back"],
-    required=["real_git_leading_dash_paths", "real_git_push_runs", "real_git_push_from_branch_tracking_a_local_branch", "fake_git_runs", "fake_hg_runs", "real_git_runs", "k12_evaluations", "class:squote", "class:dquote",
+    required=["real_git_leading_dash_paths", "real_git_pathspec_neighbours", "real_git_push_runs", "real_git_push_from_branch_tracking_a_local_branch", "fake_git_runs", "fake_hg_runs", "real_git_runs", "k12_evaluations", "class:squote", "class:dquote",
               "class:backslash", "class:newline", "class:leading-dash", "class:dollar", "class:backtick",
               "hostile_paths_checked", "templates_from_config", "config_templates_with_OLD_NEW_words",
               "templates_from_setup_cfg", "ini_templates_with_percent", "empty_tag_message_from_config"],
@@ -45,7 +45,7 @@ PLACEHOLDERS = ["{new_version}", "{old_version}", "{new_version_pep440}", "{old_
                 "{OLD_VERSION}"]
 PATH_NAMES = ["it's.txt", 'we"ird.md', "sp ace.txt", "do$llar.txt", "back`tick.txt", "semi;colon.txt", "ünï.txt",
               "per%cent.txt", "amp&er.txt", "paren(s).txt", "-dash.txt", "two  spaces.txt", "ha#sh.txt", "til~de.txt",
-              "sub dir/in ner.txt", "back\\slash.txt", "plain.txt"]
+              "sub dir/in ner.txt", "back\\slash.txt", "plain.txt", ":colon.txt", ":(top)magic.txt"]
 
 
 def gen_template(R, hostile=True):
@@ -334,6 +334,11 @@ def run_real(ctx, case):
     if any(n.startswith("-") for n in names):
         ctx.count("real_git_leading_dash_paths")
     files = build_project(R, names)
+    # neighbours that a PATHSPEC reading of a configured name would also select (git: backslash escapes, ':' magic)
+    decoys = {"back\\slash.txt": "backslash.txt", ":colon.txt": "colon.txt", ":(top)magic.txt": "magic.txt"}
+    present = [decoys[n] for n in names if n in decoys]
+    for dn in present:
+        files[dn] = "unrelated\n"
     d = harness.new_project(files)
     remote = None
     try:
@@ -341,6 +346,12 @@ def run_real(ctx, case):
         git(d, "add", "-A")
         git(d, "commit", "-q", "-m", "init")
         args = ["update", "--patch", "--no-fetch", "--commit-message", cm, "--tag-message", tm]
+        if present:
+            for dn in present:
+                with open(os.path.join(d, dn), "a") as f:
+                    f.write("local work in progress\n")
+            args.insert(1, "--allow-dirty")
+            ctx.count("real_git_pathspec_neighbours")
         if R.random() < 0.35:
             # with --push: the message must not decide WHERE the commit is pushed. The branch has no upstream
             # (pushed without -u), and the message opens with text that looks like git's `[remote/branch]` column.
@@ -356,6 +367,8 @@ def run_real(ctx, case):
             cm = pre + cm
             want_cm = expand(cm, OLD, NEW, OLD_PEP, NEW_PEP)
             args = ["update", "--patch", "--no-fetch", "--push", "--commit-message", cm, "--tag-message", tm]
+            if present:
+                args.insert(1, "--allow-dirty")
             ctx.count("real_git_push_runs")
         env = dict(GIT_ENV, HOME=d)
         res = harness.invoke(args, cwd=d, env=env)
